@@ -901,7 +901,37 @@ def sec_plumbing(rec, kind="zncc", shape=(1, 2, 2), patches=None):
 # section: the up-sampled landscape of model.landscape(..., upsample=u): entry j <-> lag (j - int(m u)) / u
 
 
-def sec_landscape_upsampled(rec, kind="zncc", box=(6, 5, 7), axis=0, u=4, others=(1.0, 0.5), patches=None):
+def replay_landscape_multi(kind):
+    """installed library: with several searched rotations, every up-sampled landscape peaks at the planted integer displacement"""
+
+    def run(cex):
+        from scipy import ndimage as ndi
+        from scipy.spatial.transform import Rotation
+        from acryo.alignment import ZNCCAlignment, NCCAlignment, PCCAlignment, FSCAlignment
+
+        Model = {"zncc": ZNCCAlignment, "ncc": NCCAlignment, "pcc": PCCAlignment, "fsc": FSCAlignment}[kind]
+        bad = []
+        for shape in ((16, 17, 15), (16, 16, 16)):
+            tmpl = _template(shape)
+            for K in (2, 3, 5):
+                model = Model(tmpl, rotations=Rotation.from_rotvec([[0.0, 0.0, 0.0]] + [[0.4 * k, 0.0, 0.2] for k in range(1, K)]))
+                for d in ((1, 0, -1), (0, 2, 1)):
+                    sub = ndi.shift(tmpl, d, order=1, mode="constant").astype(np.float32)
+                    try:
+                        lds = np.asarray(model.landscape(sub, (2.0, 2.5, 2.0), upsample=4))
+                    except Exception as e:
+                        bad.append({"K": K, "raised": repr(e)[:100]})
+                        continue
+                    best = lds[0]  # the un-rotated candidate
+                    pk = (np.array(np.unravel_index(np.argmax(best), best.shape), dtype=float) - (np.array(best.shape) - 1) / 2) / 4
+                    if np.abs(pk - np.array(d)).max() > 0.26:
+                        bad.append({"shape": list(shape), "K": K, "d": list(d), "peak_of_candidate_0": pk.tolist()})
+        return len(bad) > 0, {"model": kind, "n": len(bad), "examples": bad[:4]}
+
+    return run
+
+
+def sec_landscape_upsampled(rec, kind="zncc", box=(6, 5, 7), axis=0, u=4, others=(1.0, 0.5), K=1, patches=None):
     import scipy.fft as sfft
 
     stubs.patch_dask_from_delayed()
@@ -919,6 +949,7 @@ def sec_landscape_upsampled(rec, kind="zncc", box=(6, 5, 7), axis=0, u=4, others
     def mc(inp, coords, **kw):
         out = orig(inp, coords, **kw)
         cap["mesh"], cap["inp"] = getattr(out, "mesh", None), inp
+        cap.setdefault("all", []).append((getattr(out, "mesh", None), inp))
         return out
 
     xp.map_coordinates = mc
@@ -931,12 +962,17 @@ def sec_landscape_upsampled(rec, kind="zncc", box=(6, 5, 7), axis=0, u=4, others
     ms.insert(axis, msym)
     ms = tuple(ms)
     names = {f"m{axis}"}
-    tag = f"landscape-upsampled[{kind},box={box},axis={axis},u={u}]"
-    rpl = replay_planted(kind, tuple(s_ % 2 for s_ in box), landscape=True)
+    tag = f"landscape-upsampled[{kind},box={box},axis={axis},u={u}{',K=' + str(K) if K > 1 else ''}]"
+    rpl = replay_planted(kind, tuple(s_ % 2 for s_ in box), landscape=True) if K == 1 else replay_landscape_multi(kind)
 
     def run():
         cap.clear()
-        model = getattr(CC, name)(t)
+        if K > 1:
+            from scipy.spatial.transform import Rotation as _R
+
+            model = getattr(CC, name)(t, rotations=_R.from_rotvec([[0.0, 0.0, 0.0]] + [[0.3 * k, 0.1, 0.0] for k in range(1, K)]))
+        else:
+            model = getattr(CC, name)(t)
         out = model.landscape(a, ms, upsample=u, backend=xp)
         return out, dict(cap)
 
@@ -955,7 +991,11 @@ def sec_landscape_upsampled(rec, kind="zncc", box=(6, 5, 7), axis=0, u=4, others
         rec.fact(f"{tag}/path{pi}/result-is-the-landscape-sampled-on-one-mesh", bool(mesh is not None and inp is not None), key=f"C04/{kind}/landscape-upsampled-structure", detail={}, reproduced=True if mesh is not None else rpl({})[0])
         if mesh is None or inp is None:
             continue
-        for k in range(3):
+        allm = cp.get("all", [])
+        okk = len(allm) == K and all(m_ is not None and np.ndim(i_) == 3 for m_, i_ in allm)
+        rec.fact(f"{tag}/path{pi}/one-3-D-interpolation-per-candidate", bool(okk), key=f"C04/{kind}/landscape-upsampled-structure", detail={"n": len(allm)}, reproduced=True if okk else rpl({})[0])
+        for ci, (mesh, inp) in enumerate(allm if okk else []):
+          for k in range(3):
             mk = ratz(ms[k])
             n = np.shape(inp)[k]
             W = z3.ToInt(mk * u)
@@ -963,7 +1003,7 @@ def sec_landscape_upsampled(rec, kind="zncc", box=(6, 5, 7), axis=0, u=4, others
             start, step, length = ratz(rat(rg.start)), ratz(rat(rg.step)), zi(rg.length)
             ctr = Fraction(n - 1, 2)
             goal = z3.And(n % 2 == 1, length == 2 * W + 1, start - ctr == -z3.ToReal(W) / u, z3.Or(W == 0, step * u == 1))
-            rec.query(f"{tag}/path{pi}/axis{k}/entry-j<->lag-(j-int(m*u))/u", h, goal, key=f"C04/{kind}/landscape-upsampled-lag", names=names, replay=rpl)
+            rec.query(f"{tag}/path{pi}/cand{ci}/axis{k}/entry-j<->lag-(j-int(m*u))/u", h, goal, key=f"C04/{kind}/landscape-upsampled-lag", names=names, replay=rpl)
     if n_ok == 0:
         rec.fact(f"{tag}/runs", False, key=f"C04/{kind}/landscape-upsampled-raises", detail={"exc": repr(paths[0].exc)[:200] if paths else "no path"}, reproduced=rpl({})[0])
 
@@ -1000,6 +1040,7 @@ def sections(tier):
     for kind in ("zncc", "ncc", "pcc", "fsc"):
         for axis in (range(3) if not q else (0, 2)):
             secs.append((f"landscape-upsampled-{kind}-{axis}", "checks.c04", "sec_landscape_upsampled", {"kind": kind, "axis": axis, "box": (10, 9, 11) if kind == "pcc" else (6, 5, 7)}))
+        secs.append((f"landscape-upsampled-{kind}-K3", "checks.c04", "sec_landscape_upsampled", {"kind": kind, "axis": 1, "box": (10, 9, 11) if kind == "pcc" else (6, 5, 7), "K": 3}))
     for kind in ("zncc", "ncc", "pcc", "fsc"):
         secs.append((f"plumbing-{kind}", "checks.c04", "sec_plumbing", {"kind": kind}))
         if not q:
